@@ -140,3 +140,156 @@ Example link_distinguishes_the_repair :
   gen_next_chunk_size [7;0;0;0;97;98;99;100] 0 = Err EFmtSize
   /\ next_chunk_size_old [7;0;0;0;97;98;99;100] 0 = Ok 7.
 Proof. split; vm_compute; reflexivity. Qed.
+
+(* ---------- src/session_interface.cpp: struct packed, save_data, load_data ---------- *)
+From CppcmsV Require Import C19.SessDefs C19.Proofs.
+
+(* packed(ks,exp,ds): if(ks >= 1024) throw ...; if(ds >= 1024*1024*2) throw ... *)
+Lemma link_s_keylong ks : g_c19_s_keylong (Z.of_N ks) = (1024 <=? ks).
+Proof. unfold g_c19_s_keylong. lia. Qed.
+Lemma link_s_vallong ds : g_c19_s_vallong (Z.of_N ds) = (2097152 <=? ds).
+Proof.
+  unfold g_c19_s_vallong.
+  replace (wrapu 32 (Z.mul (Z.mul 1024 1024) 2)) with 2097152%Z by (vm_compute; reflexivity). lia.
+Qed.
+
+(* packed(start,end): start + 4 <= end;  load_data: while(begin < end), end - begin >= int(key_size + data_size)
+   (pointers as byte offsets into the buffer) *)
+Lemma link_s_hdr pos bl : g_c19_s_hdr (Z.of_N pos) (Z.of_N bl) = (pos + 4 <=? bl).
+Proof. unfold g_c19_s_hdr. lia. Qed.
+Lemma link_s_more pos bl : g_c19_s_more (Z.of_N pos) (Z.of_N bl) = negb (bl <=? pos).
+Proof. unfold g_c19_s_more. lia. Qed.
+Lemma link_s_fits p1 bl ks ds : p1 <= bl -> ks < 1024 -> ds < 2097152 ->
+  g_c19_s_fits (Z.of_N p1) (Z.of_N bl) (Z.of_N ks) (Z.of_N ds) = (ks + ds <=? bl - p1).
+Proof.
+  intros Hp Hk Hd. unfold g_c19_s_fits.
+  rewrite (wrapu32_small (Z.of_N ks + Z.of_N ds)) by lia.
+  rewrite (wraps32_small (Z.of_N ks + Z.of_N ds)) by lia. lia.
+Qed.
+
+(* the header word: bit fields key_size:10, exposed:1, data_size:21 allocated from bit 0 upwards *)
+Lemma land_shiftl_disjoint a b n : (0 <= n)%Z -> (0 <= a < 2 ^ n)%Z -> Z.land a (Z.shiftl b n) = 0%Z.
+Proof.
+  intros Hn Ha. apply Z.bits_inj'. intros i Hi. rewrite Z.land_spec, Z.bits_0.
+  destruct (Z.lt_ge_cases i n) as [L|G].
+  - rewrite (Z.shiftl_spec_low b n i L). apply andb_false_r.
+  - replace a with (a mod 2 ^ n)%Z by (apply Z.mod_small; exact Ha).
+    rewrite (Z.mod_pow2_bits_high a n i) by lia. reflexivity.
+Qed.
+Lemma lor_shiftl_add a b n : (0 <= n)%Z -> (0 <= a < 2 ^ n)%Z -> Z.lor a (Z.shiftl b n) = (a + b * 2 ^ n)%Z.
+Proof.
+  intros Hn Ha. rewrite <- Z.lxor_lor by (apply land_shiftl_disjoint; assumption).
+  rewrite <- Z.add_nocarry_lxor by (apply land_shiftl_disjoint; assumption).
+  rewrite Z.shiftl_mul_pow2 by exact Hn. reflexivity.
+Qed.
+Lemma land_ones_small a n : (0 <= n)%Z -> (0 <= a < 2 ^ n)%Z -> Z.land a (2 ^ n - 1) = a.
+Proof.
+  intros Hn Ha. replace (2 ^ n - 1)%Z with (Z.ones n) by (rewrite Z.ones_equiv; lia).
+  rewrite Z.land_ones by exact Hn. apply Z.mod_small. exact Ha.
+Qed.
+
+Lemma link_s_word ks (ex : bool) ds : ks < 1024 -> ds < 2097152 ->
+  g_c19_s_word (Z.of_N ks) (if ex then 1 else 0)%Z (Z.of_N ds) = Z.of_N (pack_hdr ks ex ds).
+Proof.
+  intros Hk Hd. unfold g_c19_s_word.
+  replace (wrapu 32 (Z.sub (wrapu 32 (Z.shiftl 1 10)) 1)) with (2 ^ 10 - 1)%Z by (vm_compute; reflexivity).
+  replace (wrapu 32 (Z.sub (wrapu 32 (Z.shiftl 1 1)) 1)) with (2 ^ 1 - 1)%Z by (vm_compute; reflexivity).
+  replace (wrapu 32 (Z.sub (wrapu 32 (Z.shiftl 1 21)) 1)) with (2 ^ 21 - 1)%Z by (vm_compute; reflexivity).
+  rewrite (land_ones_small (Z.of_N ks) 10) by lia.
+  rewrite (land_ones_small (Z.of_N ds) 21) by lia.
+  rewrite (land_ones_small (if ex then 1 else 0)%Z 1) by (destruct ex; lia).
+  rewrite (wrapu32_small (Z.of_N ks)) by lia.
+  rewrite (wrapu32_small (Z.of_N ds)) by lia.
+  rewrite (wrapu32_small (if ex then 1 else 0)%Z) by (destruct ex; lia).
+  rewrite (Z.shiftl_mul_pow2 _ 10), (Z.shiftl_mul_pow2 _ 11) by lia.
+  rewrite (wrapu32_small ((if ex then 1 else 0) * 2 ^ 10)%Z) by (destruct ex; lia).
+  rewrite (wrapu32_small (Z.of_N ds * 2 ^ 11)%Z) by lia.
+  rewrite <- (Z.shiftl_mul_pow2 _ 10), <- (Z.shiftl_mul_pow2 _ 11) by lia.
+  rewrite (lor_shiftl_add (Z.of_N ks) (if ex then 1 else 0)%Z 10%Z) by lia.
+  rewrite (wrapu32_small (Z.of_N ks + (if ex then 1 else 0) * 2 ^ 10)%Z) by (destruct ex; lia).
+  rewrite (lor_shiftl_add (Z.of_N ks + (if ex then 1 else 0) * 2 ^ 10)%Z (Z.of_N ds) 11%Z) by (destruct ex; lia).
+  rewrite wrapu32_small by (destruct ex; lia).
+  unfold pack_hdr. destruct ex; lia.
+Qed.
+
+(* the record header written by save_data is the word of the source's bit-field declaration *)
+Theorem link_session_header ks (ex : bool) ds : ks < 1024 -> ds < 2097152 ->
+  le_bytes 4 (Z.to_N (g_c19_s_word (Z.of_N ks) (if ex then 1 else 0)%Z (Z.of_N ds))) = le_bytes 4 (pack_hdr ks ex ds).
+Proof. intros Hk Hd. rewrite (link_s_word _ _ _ Hk Hd), N2Z.id. reflexivity. Qed.
+
+(* load_data assembled from the generated tests is the model's load_data (buffers of bytes) *)
+Fixpoint gen_load_data_aux (fuel : nat) (buf : list N) (pos : N) (acc : list sentry) {struct fuel} : sres (list sentry) :=
+  let bl := Z.of_N (blen buf) in
+  if negb (g_c19_s_more (Z.of_N pos) bl) then SOk (rev acc)
+  else match fuel with
+       | O => SErr SFuel
+       | S f =>
+           if negb (g_c19_s_hdr (Z.of_N pos) bl) then SErr SPack
+           else match slice buf pos 4 with
+                | None => SErr SOob
+                | Some h =>
+                    let w := le_val h in
+                    let ks := w mod 1024 in
+                    let ex := (w / 1024) mod 2 =? 1 in
+                    let ds := w / 2048 in
+                    let p1 := pos + 4 in
+                    if negb (g_c19_s_fits (Z.of_N p1) bl (Z.of_N ks) (Z.of_N ds)) then SErr SData
+                    else match slice buf p1 ks, slice buf (p1 + ks) ds with
+                         | Some k, Some v => gen_load_data_aux f buf (p1 + ks + ds) ((k, ex, v) :: acc)
+                         | _, _ => SErr SOob
+                         end
+                end
+       end.
+
+Definition bytes_ok (l : list N) : Prop := Forall (fun b => b < 256) l.
+
+Lemma bytes_ok_skipn n l : bytes_ok l -> bytes_ok (skipn n l).
+Proof.
+  revert l. induction n as [|n IH]; intros l H; [exact H|].
+  destruct l as [|x r]; [exact H|]. cbn [skipn]. apply IH. inversion H; assumption.
+Qed.
+Lemma bytes_ok_firstn n l : bytes_ok l -> bytes_ok (firstn n l).
+Proof.
+  revert l. induction n as [|n IH]; intros l H; [constructor|].
+  destruct l as [|x r]; [constructor|]. cbn [firstn]. inversion H; subst. constructor; [assumption|apply IH; assumption].
+Qed.
+Lemma le_val_bound l : bytes_ok l -> le_val l < 256 ^ blen l.
+Proof.
+  induction l as [|x r IH]; intros H.
+  - cbn. lia.
+  - inversion H as [|? ? Hx Hr]; subst. specialize (IH Hr). cbn [le_val]. rewrite blen_cons.
+    replace (1 + blen r) with (N.succ (blen r)) by lia. rewrite N.pow_succ_r by lia. lia.
+Qed.
+Lemma slice_bytes_ok buf off len h : bytes_ok buf -> slice buf off len = Some h -> bytes_ok h.
+Proof.
+  intros Hb Hs. unfold slice in Hs. destruct (off + len <=? blen buf); [|discriminate].
+  injection Hs as <-. apply bytes_ok_firstn, bytes_ok_skipn. exact Hb.
+Qed.
+Lemma slice4_bound buf pos h : bytes_ok buf -> slice buf pos 4 = Some h -> le_val h < M32.
+Proof.
+  intros Hb Hs. pose proof (slice_some _ _ _ _ Hs) as [_ Hl].
+  pose proof (le_val_bound h (slice_bytes_ok _ _ _ _ Hb Hs)) as B. rewrite Hl in B. exact B.
+Qed.
+
+Theorem link_load_data_aux : forall fuel buf pos acc,
+  bytes_ok buf -> pos <= blen buf ->
+  gen_load_data_aux fuel buf pos acc = load_data_aux fuel buf pos acc.
+Proof.
+  induction fuel as [|f IH]; intros buf pos acc Hb Hp.
+  - cbn [gen_load_data_aux load_data_aux]. cbv zeta. rewrite link_s_more, negb_involutive.
+    destruct (blen buf <=? pos); reflexivity.
+  - cbn [gen_load_data_aux load_data_aux]. cbv zeta. rewrite link_s_more, negb_involutive, link_s_hdr.
+    destruct (blen buf <=? pos); [reflexivity|].
+    destruct (N.leb_spec (pos + 4) (blen buf)) as [C|C]; cbn [negb]; [|reflexivity].
+    destruct (slice buf pos 4) as [h|] eqn:Sh; [|reflexivity].
+    pose proof (slice4_bound _ _ _ Hb Sh) as Bw. unfold M32 in Bw.
+    rewrite link_s_fits by lia.
+    destruct (N.leb_spec (le_val h mod 1024 + le_val h / 2048) (blen buf - (pos + 4))) as [C3|C3]; cbn [negb]; [|reflexivity].
+    destruct (slice buf (pos + 4) (le_val h mod 1024)); [|reflexivity].
+    destruct (slice buf (pos + 4 + le_val h mod 1024) (le_val h / 2048)); [|reflexivity].
+    apply IH; [exact Hb|lia].
+Qed.
+
+Theorem link_load_data buf : bytes_ok buf ->
+  gen_load_data_aux (S (length buf)) buf 0 [] = load_data buf.
+Proof. intros Hb. unfold load_data. apply link_load_data_aux; [exact Hb|lia]. Qed.
